@@ -57,6 +57,7 @@ package options
 //@ pure multiElemsOK(v []string, cfg *execution.MultiOptionConfig) bool =
 //@     forall k int :: {v[k]} 0 <= k && k < len(v) ==> len(v[k]) > 0 && (cfg != nil && (cfg.AllowCustom || stringsutils.containsStr(cfg.Values, v[k])))
 //@ func EvaluateOptionMulti
+//@   locals vi: []interface{}; newValue: []string; v: string
 //@   params value, option, cfg, fldPath
 //@   tags C18
 //@   loop 1 invariant -1 <= rangeindex && rangeindex < len(vi) && len(newValue) == rangeindex + 1
@@ -115,6 +116,7 @@ package options
 
 // on success exactly one value per declared option, and nothing else
 //@ func EvaluateOptions
+//@   locals allErrs: k8s.io/apimachinery/pkg/util/validation/field.ErrorList; eval: map[string]string
 //@   params options, cfg, fldPath
 //@   tags C18
 //@   fresh result0
@@ -173,6 +175,7 @@ package options
 //@   ensures [C18] unknown-type-is-rejected: !knownType(option) ==> result1 != nil
 
 //@ func MakeDefaultOptions
+//@   locals opts: map[string]string
 //@   params cfg
 //@   tags C18
 //@   fresh result0
@@ -188,6 +191,7 @@ package options
 // MergeSubstitutions: a fresh map in which, for every key, the last map that contains it wins; the inputs are untouched
 //@ pure inSome(ms []map[string]string, n int, k string) bool = exists i int :: 0 <= i && i < n && (k in ms[i])
 //@ func MergeSubstitutions
+//@   locals newParams: map[string]string; params: map[string]string; k: string
 //@   params paramMaps
 //@   tags C18, C16
 //@   fresh result
@@ -230,6 +234,7 @@ package options
 //@   params option, fldPath
 //@   fresh result
 //@ func ValidateOptionSpec
+//@   locals allErrs: k8s.io/apimachinery/pkg/util/validation/field.ErrorList; optionNames: map[string]struct{}
 //@   params spec, fldPath
 //@   tags C18, C17
 //@   loop 1 invariant -1 <= rangeindex && rangeindex < len(spec.Options) && optionNames != nil && fresh(optionNames) && len(allErrs) >= 0
